@@ -25,8 +25,9 @@ class C20(Check):
                   "the diagonal vector distribution on square grids. Refuted with witnesses (findings): the key stored by "
                   "the k-cyclic data_of, the vector ROW/COL distributions, the vector DIAG init on non-square grids. The "
                   "model is tied to the code by running every rank's view of the real collections against the extracted "
-                  "model. Partial: the k-cyclic view (kview) is modelled, differentially tested and checked by the oracle, "
-                  "its permutation property is not proved; LAPACK storage offsets are modelled and tested, not proved.")
+                  "model. The k-cyclic view is proved to be a permutation of the submatrix's tiles (cycle walking terminates, "
+                  "injective, onto) composed with the plain functions. Partial: LAPACK storage offsets are modelled and "
+                  "tested, not proved; sum/onto statements are for the whole matrix, not per submatrix.")
     level_note = ("Trusted: Coq kernel, extraction, the harness (includes the distribution sources, redirects "
                   "parsec_vpmap_get_nb_vp to an input, replaces data_map by a padded array and mat by a fake base). "
                   "Assumes no int overflow (all products far below 2^31) and float-exact ceil(sqrt(nb_vp)) (nb_vp < 2^20).")
@@ -436,6 +437,9 @@ C20.theorems = (
     "C20_bc_kcyclic_stored_key_refuted",
     "C20_bc_vpid_in_range",
     "C20_bc_tile_memory",
+    "C20_kview_permutation",
+    "C20_kview_slot_in_range",
+    "C20_kview_slot_injective",
     "C20_sym_rank_in_range",
     "C20_sym_lower_slot_in_range",
     "C20_sym_lower_slot_injective",
